@@ -27,12 +27,24 @@ package core
 //@ func ProxyStats.ReqCmdIncr
 //@   flags trusted pure
 
+// The timeout tree (an llrb tree of in-flight fragments ordered by deadline) is abstracted by a ghost flag per
+// fragment: intree. Only fragments with an owner and a parent request are ever inserted.
+//@ ghost field Frag.intree Bool
+
 //@ func deleteFromTimeoutQueue
+//@   flags trusted
+//@   modifies f.intree
+//@   ensures !f.intree
+
+//@ func getFromTimeoutQueue
 //@   flags trusted pure
+//@   ensures result != nil ==> result.intree && result.Peer != nil && result.Owner != nil
 
 //@ func pushToTimeoutQueue
 //@   flags trusted
-//@   modifies time.Time.wall, time.Time.ext, time.Time.loc
+//@   modifies time.Time.wall, time.Time.ext, time.Time.loc, msg.intree
+//@   ensures (timeout > 0 && msg.Owner != nil && msg.Peer != nil) ==> msg.intree
+//@   ensures !(timeout > 0 && msg.Owner != nil && msg.Peer != nil) ==> msg.intree == old(msg.intree)
 
 //@ func Frag.slowLogCheck
 //@   flags trusted pure
@@ -74,7 +86,7 @@ package core
 
 //@ func conn.enqueueInFrag
 //@   props C10 C16
-//@   modifies iq(c).head, iq(c).tail, iq(c).count, frag.next, frag.prev, old(iq(c).tail).prev, time.Time.wall, time.Time.ext, time.Time.loc
+//@   modifies iq(c).head, iq(c).tail, iq(c).count, frag.next, frag.prev, old(iq(c).tail).prev, time.Time.wall, time.Time.ext, time.Time.loc, frag.intree
 //@   requires iq(c) != nil && fwf(iq(c)) && frag != nil && fnotin(iq(c), frag) && c.loop != nil && c.loop.engine != nil && c.loop.engine.opts != nil
 //@   ensures[count] iq(c).count == old(iq(c).count) + 1
 //@   ensures[keep] forall i int :: 0 <= i && i < old(iq(c).count) ==> fq(iq(c), i) == old(fq(iq(c), i))
@@ -97,7 +109,7 @@ package core
 //@   ensures[order.moved@C10] hwsok(c) ==> (forall k int :: 0 <= k && k < old(oq(c).count) ==> fq(iq(c), old(iq(c).count) + k) == old(fq(oq(c), k)))
 //@   ensures[written@C10] hwsok(c) ==> c.wcount == old(c.wcount) + old(oq(c).count) && (forall k int :: 0 <= k && k < old(oq(c).count) ==> c.wlog[old(c.wcount) + k] == old(fqm(oq(c), k).Req))
 //@   loop 0
-//@     modifies oq(c).head, oq(c).tail, oq(c).count, iq(c).head, iq(c).tail, iq(c).count, Frag.next, Frag.prev, time.Time.wall, time.Time.ext, time.Time.loc, capmem(bs)
+//@     modifies oq(c).head, oq(c).tail, oq(c).count, iq(c).head, iq(c).tail, iq(c).count, Frag.next, Frag.prev, Frag.intree, time.Time.wall, time.Time.ext, time.Time.loc, capmem(bs)
 //@     invariant c.opened && oq(c) != nil && iq(c) != nil && iq(c) != oq(c) && c.loop != nil && c.loop.engine != nil && c.loop.engine.opts != nil
 //@     invariant fwf(oq(c)) && fwf(iq(c)) && qdisj(iq(c), oq(c))
 //@     invariant 0 <= oq(c).count && oq(c).count <= old(oq(c).count) && iq(c).count == old(iq(c).count) + moved(c)
